@@ -54,6 +54,17 @@ pub open spec fn seen<A, E>(la0: Option<A>, r: Seq<Result<A, E>>, c: int) -> Seq
     (match la0 { Some(t) => seq![t], None => Seq::<A>::empty() }) + oks(r, c)
 }
 
+/// TRUSTED (std): `Clone` for 3-tuples clones componentwise, so it returns an equal value when the components' do.
+/// (Verus has no specification for the built-in tuple instance.)
+#[verifier::external_body]
+pub proof fn axiom_tuple3_clone<A: Clone, B: Clone>()
+    requires
+        forall|a: A, b: A| #[trigger] call_ensures(<A as Clone>::clone, (&a,), b) ==> a == b,
+        forall|a: B, b: B| #[trigger] call_ensures(<B as Clone>::clone, (&a,), b) ==> a == b,
+    ensures forall|x: (A, B, A), y: (A, B, A)| #[trigger] vstd::pervasive::cloned::<(A, B, A)>(x, y) ==> x == y,
+{
+}
+
 /// the first n items of a token stream prefix are all `Ok`
 pub open spec fn all_ok<A, E>(r: Seq<Result<A, E>>, n: int) -> bool {
     forall|j: int| 0 <= j < n ==> (#[trigger] r[j]) is Ok
@@ -98,6 +109,58 @@ pub open spec fn after_reduce<S, T, R, N, A>(tb: Tables<S, T, R, N, A>, st: Seq<
     st.subrange(0, st.len() - pop).push(sp_goto(tb, st[st.len() - pop - 1], nt))
 }
 
+
+// ------------------------------ T3: the spec LR machine (oracle written from C01 / C04) ------------------------------
+/// what the parser sees of one stream item
+pub enum Tk<T> { Err, Unknown, Idx(T) }
+/// how a parse ends.  positions are indices into the token stream
+pub enum Out { Accepted, UnrecTok(int), UnrecEof, StreamErr(int), Early }
+pub enum Step<S> { Next(Seq<S>, int), Stop(Out) }
+
+/// one move of a deterministic LR machine on `tb`: shift on Shift, reduce on Reduce, report the token on Error,
+/// accept only on the end-of-input action (C01); the error is reported at the first token whose action is Error (C04)
+pub open spec fn lr_step<S, T, R, N, A: ParserAction<S, R>>(tb: Tables<S, T, R, N, A>, toks: Seq<Tk<T>>, st: Seq<S>, pos: int) -> Step<S> {
+    if 0 <= pos < toks.len() {
+        match toks[pos] {
+            Tk::Err => Step::Stop(Out::StreamErr(pos)),
+            Tk::Unknown => Step::Stop(Out::UnrecTok(pos)),
+            Tk::Idx(t) => match sp_action(tb, st.last(), t).kind() {
+                ActKind::Shift(s) => Step::Next(st.push(s), pos + 1),
+                ActKind::Reduce(r) => match sp_sim(tb, r) {
+                    SimSpec::Reduce { pop, nt } => Step::Next(after_reduce(tb, st, pop, nt), pos),
+                    SimSpec::Accept => Step::Stop(Out::Early),
+                },
+                ActKind::Error => Step::Stop(Out::UnrecTok(pos)),
+            },
+        }
+    } else {
+        match sp_eof(tb, st.last()).kind() {
+            ActKind::Reduce(r) => match sp_sim(tb, r) {
+                SimSpec::Reduce { pop, nt } => Step::Next(after_reduce(tb, st, pop, nt), pos),
+                SimSpec::Accept => Step::Stop(Out::Accepted),
+            },
+            _ => Step::Stop(Out::UnrecEof),
+        }
+    }
+}
+/// position `pos` is past the last token (also the instantiation handle of the end-of-input contracts)
+pub open spec fn at_eof<T>(toks: Seq<Tk<T>>, pos: int) -> bool { pos >= toks.len() }
+/// n moves from (st0, p0)
+pub open spec fn lr_iter<S, T, R, N, A: ParserAction<S, R>>(tb: Tables<S, T, R, N, A>, toks: Seq<Tk<T>>, st0: Seq<S>, p0: int, n: nat) -> Step<S>
+    decreases n
+{
+    if n == 0 { Step::Next(st0, p0) } else {
+        match lr_iter(tb, toks, st0, p0, (n - 1) as nat) {
+            Step::Next(st, pos) => lr_step(tb, toks, st, pos),
+            Step::Stop(o) => Step::Stop(o),
+        }
+    }
+}
+/// the machine started in (st0, p0) stops with outcome o
+pub open spec fn lr_stops<S, T, R, N, A: ParserAction<S, R>>(tb: Tables<S, T, R, N, A>, toks: Seq<Tk<T>>, st0: Seq<S>, p0: int, o: Out) -> bool {
+    exists|n: nat| #[trigger] lr_iter(tb, toks, st0, p0, n) == Step::<S>::Stop(o)
+}
+
 // ------------------------------ real code under contract ------------------------------
 //@ item sm trait ParserDefinition
 //@ item sm trait ParserAction
@@ -116,6 +179,113 @@ pub open spec fn after_reduce<S, T, R, N, A>(tb: Tables<S, T, R, N, A>, st: Seq<
 //@ item sm enum NextToken
 //@ item sm impl Parser
 //@ expand sm integral_indices
+
+
+// ---------------------------------------------------------------------------------------------
+// Witness instance (vacuity guard): the table contract assumed of every `D: ParserDefinition` is
+// satisfiable.  `W` implements the trait - with all its contracts and proof obligations VERIFIED - for
+// the grammar  S -> a  (states 0 start, 1 after `a`, 2 after S; production 0: S -> a, production 1: accept).
+// ---------------------------------------------------------------------------------------------
+pub struct W;
+pub open spec fn w_valid(st: Seq<i8>) -> bool {
+    st =~= seq![0i8] || st =~= seq![0i8, 1i8] || st =~= seq![0i8, 2i8]
+}
+pub open spec fn w_tables() -> Tables<i8, u8, i8, u8, i8> {
+    Tables {
+        action: |s: i8, t: u8| if s == 0 { 2i8 } else { 0i8 },          // shift to state 1 is encoded 1 + 1
+        eof_action: |s: i8| if s == 1 { -1i8 } else if s == 2 { -2i8 } else { 0i8 },
+        error_action: |s: i8| 0i8,
+        goto: |s: i8, n: u8| 2i8,
+        sim: |r: i8| if r == 0 { SimSpec::Reduce { pop: 1, nt: 0u8 } } else { SimSpec::Accept },
+        valid: |st: Seq<i8>| w_valid(st),
+        start: 0i8,
+        recov: false,
+        fallible: false,
+    }
+}
+impl ParserDefinition for W {
+    type Location = usize;
+    type Error = ();
+    type Token = u8;
+    type TokenIndex = u8;
+    type Symbol = u8;
+    type Success = ();
+    type StateIndex = i8;
+    type Action = i8;
+    type ReduceIndex = i8;
+    type NonterminalIndex = u8;
+
+    open spec fn tables(&self) -> Tables<i8, u8, i8, u8, i8> { w_tables() }
+    open spec fn sp_tok_index(&self, t: u8) -> Option<u8> { Some(0u8) }
+    open spec fn sp_start_loc(&self) -> usize { 0 }
+    open spec fn sp_recovery_of(&self, s: u8) -> ErrorRecovery<Self> { arbitrary() }
+    open spec fn sp_tks(&self, r: Seq<Result<TokenTriple<Self>, ParseError<Self>>>) -> Seq<Tk<u8>> {
+        Seq::new(r.len(), |j: int| match r[j] {
+            Err(_) => Tk::<u8>::Err,
+            Ok(t) => match self.sp_tok_index(t.1) { Some(i) => Tk::Idx(i), None => Tk::Unknown },
+        })
+    }
+    proof fn tks_def(&self) {}
+    proof fn loc_clone_axiom(&self) {}
+    proof fn tok_clone_axiom(&self) {}
+    proof fn table_axioms(&self) {
+        let tb = self.tables();
+        assert forall|st: Seq<i8>, k: int| (sp_valid(tb, st) && 0 < k <= st.len()) implies sp_valid(tb, #[trigger] st.subrange(0, k)) by {
+            if k == 1 { assert(st.subrange(0, k) =~= seq![0i8]); } else { assert(st.subrange(0, k) =~= st); }
+        }
+        assert forall|st: Seq<i8>, t: u8| #![trigger sp_valid(tb, st), sp_action(tb, st.last(), t)]
+            sp_valid(tb, st) implies (match sp_action(tb, st.last(), t).kind() { ActKind::Shift(s2) => sp_valid(tb, st.push(s2)), _ => true }) by {
+            if st.last() == 0 { assert(st =~= seq![0i8]); assert(st.push(1i8) =~= seq![0i8, 1i8]); }
+        }
+        assert forall|st: Seq<i8>, r: i8| #![trigger sp_valid(tb, st), sp_sim(tb, r)]
+            (sp_valid(tb, st) && enabled(tb, st, r)) implies (match sp_sim(tb, r) {
+                SimSpec::Reduce { pop, nt } => pop < st.len() && sp_valid(tb, after_reduce(tb, st, pop, nt)),
+                SimSpec::Accept => true }) by {
+            if r == 0 {
+                // only state 1 has a reduce by production 0
+                assert(st.last() == 1);
+                assert(st =~= seq![0i8, 1i8]);
+                assert(after_reduce(tb, st, 1, 0u8) =~= seq![0i8, 2i8]);
+            }
+        }
+    }
+    fn start_location(&self) -> usize { 0 }
+    fn start_state(&self) -> i8 { 0 }
+    fn token_to_index(&self, token: &u8) -> Option<u8> { Some(0) }
+    fn action(&self, state: i8, token_index: u8) -> i8 { if state == 0 { 2 } else { 0 } }
+    fn error_action(&self, state: i8) -> i8 { 0 }
+    fn eof_action(&self, state: i8) -> i8 { if state == 1 { -1 } else if state == 2 { -2 } else { 0 } }
+    fn goto(&self, state: i8, nt: u8) -> i8 { 2 }
+    fn token_to_symbol(&self, token_index: u8, token: u8) -> u8 { token }
+    fn expected_tokens(&self, state: i8) -> Vec<String> { Vec::new() }
+    fn uses_error_recovery(&self) -> bool { false }
+    fn error_recovery_symbol(&self, recovery: ErrorRecovery<Self>) -> u8 { proof { assert(false); } 0 }
+    fn reduce(&mut self, reduce_index: i8, start_location: Option<&usize>, states: &mut Vec<i8>, symbols: &mut Vec<SymbolTriple<Self>>) -> Option<ParseResult<Self>> {
+        proof { self.table_axioms(); }
+        if reduce_index == 0 {
+            assert(states@.last() == 1);
+            assert(states@ =~= seq![0i8, 1i8]);
+            let sym = symbols.pop().unwrap();
+            states.pop();
+            states.push(2);
+            symbols.push(sym);
+            assert(states@ =~= seq![0i8, 2i8]);
+            assert(after_reduce(self.tables(), seq![0i8, 1i8], 1, 0u8) =~= seq![0i8, 2i8]);
+            None
+        } else {
+            Some(Ok(()))
+        }
+    }
+    fn simulate_reduce(&self, action: i8) -> SimulatedReduce<Self> {
+        if action == 0 { SimulatedReduce::Reduce { states_to_pop: 1, nonterminal_produced: 0 } } else { SimulatedReduce::Accept }
+    }
+}
+/// the witness really is driven by the verified driver: `drive` type-checks against it and its precondition is met
+fn w_drive(tokens: std::vec::IntoIter<Result<(usize, u8, usize), ParseError<W>>>) -> ParseResult<W>
+    requires tokens.obeys_prophetic_iter_laws()
+{
+    Parser::drive(W, tokens)
+}
 
 } // mod state_machine
 } // verus!
